@@ -1,4 +1,5 @@
 import Generated.Funcs
+import SlimProps.BridgeSem.PrintAxioms
 import SlimModel.Legacy
 import SlimProofs.WireMarshal
 
@@ -51,12 +52,12 @@ theorem before000510_eq (ver : String) : check ver ["==1.0.0", "<0.5.10"] = befo
 
 theorem Unmarshal_plan_sem (buf : Bytes) (h : Header) (r : Bytes) (l : Loaded)
     (hh : readHeader buf = .ok (h, r)) (hd : unmarshalDispatch buf = .ok l) :
-    WP.Unmarshal_plan (isCompatible h.version) (check h.version)
+    Generated.WP.Unmarshal_plan (isCompatible h.version) (check h.version)
       = "pbcmpl.ReadHeader" :: "compatibleVersions" :: planOf l := by
   unfold unmarshalDispatch at hd
   rw [hh] at hd
   simp only at hd
-  unfold WP.Unmarshal_plan
+  unfold Generated.WP.Unmarshal_plan
   rw [currentLayout_eq, before000512_eq]
   by_cases hc : isCompatible h.version = false
   · rw [if_pos hc] at hd; cases hd
@@ -91,16 +92,16 @@ theorem Unmarshal_plan_sem (buf : Bytes) (h : Header) (r : Bytes) (l : Loaded)
 theorem Unmarshal_plan_incompatible (buf : Bytes) (h : Header) (r : Bytes)
     (hh : readHeader buf = .ok (h, r)) (hc : isCompatible h.version = false) :
     unmarshalDispatch buf = .error .incompatible
-      ∧ WP.Unmarshal_plan (isCompatible h.version) (check h.version)
+      ∧ Generated.WP.Unmarshal_plan (isCompatible h.version) (check h.version)
           = ["pbcmpl.ReadHeader", "compatibleVersions"] := by
   constructor
   · unfold unmarshalDispatch; rw [hh]; simp only; rw [if_pos hc]
-  · unfold WP.Unmarshal_plan; simp [hc]
+  · unfold Generated.WP.Unmarshal_plan; simp [hc]
 
 theorem before000510_plan_sem (compat : Bool) (ver : String) :
-    WP.before000510_plan compat (check ver)
+    Generated.WP.before000510_plan compat (check ver)
       = if before000510 ver then ["before000510ToNewChildrenArray"] else [] := by
-  unfold WP.before000510_plan
+  unfold Generated.WP.before000510_plan
   have h := before000510_eq ver
   cases hb : before000510 ver <;> rw [hb] at h <;> simp [h]
 
@@ -122,11 +123,11 @@ theorem unmarshalMsg_legacy3 (enc : Option Nat) (buf : Bytes) (ver : String) (ch
 /-! ### non-vacuity: the decision table on the six compatible versions and two others -/
 
 example : (["1.0.0", "0.5.8", "0.5.9", "0.5.10", "0.5.11", "0.5.12", "0.5.7", "0.6.0"].map fun ver =>
-    (WP.Unmarshal_plan (isCompatible ver) (check ver)).drop 2)
+    (Generated.WP.Unmarshal_plan (isCompatible ver) (check ver)).drop 2)
     = [planOf (.legacy3 "" {} {} {}), planOf (.legacy3 "" {} {} {}), planOf (.legacy3 "" {} {} {}),
        planOf (.v0510 "" {}), planOf (.v0510 "" {}), planOf (.current {}), [], []] := by decide
 
-example : (["1.0.0", "0.5.8", "0.5.9"].map fun ver => WP.before000510_plan true (check ver))
+example : (["1.0.0", "0.5.8", "0.5.9"].map fun ver => Generated.WP.before000510_plan true (check ver))
     = [["before000510ToNewChildrenArray"], ["before000510ToNewChildrenArray"], ["before000510ToNewChildrenArray"]] := by
   decide
 
@@ -141,8 +142,8 @@ example (m : SlimMsg) (hwf : m.WF) (hnf : m.NF) (hb : BodyOK (encodeSlim m)) :
 
 end BridgeSem
 
-#print axioms BridgeSem.Unmarshal_plan_sem
-#print axioms BridgeSem.Unmarshal_plan_incompatible
-#print axioms BridgeSem.before000510_plan_sem
-#print axioms BridgeSem.unmarshalMsg_v0510
-#print axioms BridgeSem.unmarshalMsg_legacy3
+#print_axioms? BridgeSem.Unmarshal_plan_sem
+#print_axioms? BridgeSem.Unmarshal_plan_incompatible
+#print_axioms? BridgeSem.before000510_plan_sem
+#print_axioms? BridgeSem.unmarshalMsg_v0510
+#print_axioms? BridgeSem.unmarshalMsg_legacy3
